@@ -32,9 +32,10 @@ var c15Words = []string{"ab", "cd", "efg", "Ab"}
 
 func newWorld() *c15World {
 	x := &c15World{}
-	x.reqBack = []string{"a", "", "xy"}
+	// the caller's slice has spare capacity beyond what the recipe sees
+	x.reqBack = []string{"a", "", "xy", "SPARE1", "SPARE2"}
 	x.reqOn = true
-	x.c = spg.CharRecipe{Length: 2, AllowChars: "abc", RequireSets: x.reqBack}
+	x.c = spg.CharRecipe{Length: 2, AllowChars: "abc", RequireSets: x.reqBack[:3]}
 	x.words = append([]string{}, c15Words...)
 	wl, err := spg.NewWordList(x.words)
 	if err != nil {
@@ -109,9 +110,9 @@ var c15Tapes = []func(b uint32, i int) uint32{
 // c15MakeTape: tapes 0 and 1 are policies; tape 2 is policy 0 with the source
 // failing at the second read.
 func c15MakeTape(k int) *tape.Tape {
-	if k == 2 {
+	if k == 2 || k == 3 {
 		t := policyTape(c15Tapes[0])
-		t.FaultAt, t.Fault = 2, tape.Fault{Deliver: 0, Err: errInjected}
+		t.FaultAt, t.Fault = 2, tape.Fault{Deliver: (k - 2) * 2, Err: errInjected}
 		return t
 	}
 	return policyTape(c15Tapes[k])
@@ -160,6 +161,13 @@ func c15Ops() []c15Op {
 		}},
 		{Name: "Generate(w) on a source that fails at read 2 (panic recovered)", Tape: 2, Query: func(x *c15World) string { return renderGen(runGen(x.w.Generate)) }},
 		{Name: "Generate(c) on a source that fails at read 2 (panic recovered)", Tape: 2, Query: func(x *c15World) string { return renderGen(runGen(x.c.Generate)) }},
+		{Name: "Generate(w) on a source that fails at read 2 after delivering 2 bytes", Tape: 3, Query: func(x *c15World) string { return renderGen(runGen(x.w.Generate)) }},
+		{Name: "Generate(value copy of w with SeparatorChar +)", Tape: 1, Query: func(x *c15World) string {
+			cp := *x.w
+			cp.SeparatorChar = "+"
+			cp.Length = 2
+			return renderGen(runGen(cp.Generate))
+		}},
 		{Name: "c.Length 2<->3", Upd: func(x *c15World) { x.c.Length = 5 - x.c.Length }},
 		{Name: "c.Allow ^= Digits", Upd: func(x *c15World) { x.c.Allow ^= spg.Digits }},
 		{Name: "c.ExcludeChars \"\"<->\"a\"", Upd: func(x *c15World) {
@@ -178,7 +186,7 @@ func c15Ops() []c15Op {
 		}},
 		{Name: "c.RequireSets nil<->slice", Upd: func(x *c15World) {
 			if x.c.RequireSets == nil {
-				x.c.RequireSets = x.reqBack
+				x.c.RequireSets = x.reqBack[:3]
 			} else {
 				x.c.RequireSets = nil
 			}
@@ -558,7 +566,7 @@ func init() {
 		ID:    "C15",
 		Level: "model_checking",
 		Build: "inst",
-		Rule: "every sequence of length <=4 (thorough <=5) over 20 operations - 11 queries (two of them on a random source that fails mid-call, the panic recovered by the caller) (Generate/Entropy/Alphabet/SuccessProbability on a character recipe, Generate/Entropy on a wordlist recipe, the preset SFDigits1 and a constructed separator function, each with a fixed scripted random stream) and 9 caller-side updates (lengths, class flags, exclude string, in-place edit of the RequireSets slice, nil/slice, capitalisation, separator function and character) - run on live values; after every query: caller-visible state deep-equal to the snapshot before it, result and bytes consumed equal to the same call on freshly built values with the same public fields, and consistent with the reference model evaluated on the current fields; " +
+		Rule: "every sequence of length <=4 (thorough <=5) over 22 operations - 13 queries (three of them on a random source that fails mid-call, the panic recovered by the caller) (Generate/Entropy/Alphabet/SuccessProbability on a character recipe, Generate/Entropy on a wordlist recipe, the preset SFDigits1 and a constructed separator function, each with a fixed scripted random stream) and 9 caller-side updates (lengths, class flags, exclude string, in-place edit of the RequireSets slice, nil/slice, capitalisation, separator function and character) - run on live values; after every query: caller-visible state deep-equal to the snapshot before it, result and bytes consumed equal to the same call on freshly built values with the same public fields, and consistent with the reference model evaluated on the current fields; " +
 			"part B: all ordered pairs of ~70 character recipes and 96 wordlist recipes that differ only in how the same characters are split over fields/strings or that share a word list object (queries on A, then B checked against the model); states = sequences; non-trivial = distinct (query, result) pairs",
 		Assume:    []string{"map ranges take the canonical order in the instrumented build, so a freshly built word list has the same word order", "no state deduplication: closures hide state that cannot be hashed soundly"},
 		Run:       c15Run,
